@@ -1073,6 +1073,15 @@ class Interp:
                         consts[name] = c
             b = self.entry_bindings(fi)
             b.update(consts)
+            # parameters without a declared kind (private helpers: `table`, `key`, `idx`, ...) take the kind of the
+            # actual argument: the helper is then analysed for this call context
+            actual = []
+            for name, ak in bound.items():
+                if name in b and isinstance(b[name], _Top) and is_known(ak):
+                    b[name] = ak
+                    actual.append(name)
+            if actual:
+                return self.analyse(fi, b, ctx="call", depth=fr.depth + 1, record=fr.record)
             if recv is not None and fi.params and not fi.is_static:
                 b[fi.params[0].arg] = recv if isinstance(recv, Obj) else b[fi.params[0].arg]
             return self.analyse(fi, b, ctx="flags:" + ",".join(f"{k}={v.value}" for k, v in sorted(consts.items())), depth=fr.depth + 1, record=fr.record)
